@@ -70,7 +70,14 @@ pub fn gen_call(rng: &mut Rng, key: (bool, u32), refuse: bool, total: Option<usi
             if rng.chance(1, 8) { rng.pick(&[0u32, 0x7E, 0x7F, 0xFF]) } else { rng.pick(&[5u32, 6]) }
         } else { 0 };
         nums = vec![dest, has_hdr as u32, mt];
-        lists = vec![rng.bytes(if has_hdr { h } else { 0 }), rng.bytes(if has_hdr { d } else { h + d })];
+        lists = vec![rng.bytes(if has_hdr { h } else { 0 }), rng.body(if has_hdr { d } else { h + d })];
+        // bodies that begin like the framing the encoder itself emits (message type byte, vendor ID, header bytes):
+        // a body is carried verbatim, whatever it looks like
+        if rng.chance(1, 6) {
+            let pre: Vec<u8> = match rng.below(4) { 0 => vec![0x7E, 0x14, 0x14], 1 => vec![0x7F, 0, 0, 0x01, 0x57], 2 => vec![rng.pick(&[0u8, 5, 6, 0x7E, 0x7F])], _ => vec![0x01, dest as u8, 0xC8] };
+            let b = &mut lists[1];
+            for (i, x) in pre.iter().enumerate() { if i < b.len() { b[i] = *x; } }
+        }
         return Call { req, id, nums, lists };
     }
     if req {
@@ -90,6 +97,18 @@ pub fn gen_call(rng: &mut Rng, key: (bool, u32), refuse: bool, total: Option<usi
                     if rng.chance(1, 2) { 8 + rng.below(5) as usize } else { rng.pick(&[8usize, 9, 31, 32, 63, 64, 65, 71, 72, 127, 128, 135, 192, 199, 255, 256, 257, 300]) }
                 } else { rng.below(8) as usize };
                 lists = (0..n).map(|_| rng.bytes(4)).collect();
+                // related neighbours: consecutive EID ranges of one kind behind one physical address, duplicates,
+                // an entry repeated later — an encoder must carry the entries as given, not normalise them
+                if n >= 2 && rng.chance(1, 2) {
+                    for i in 1..n {
+                        match rng.below(4) {
+                            0 => { let p = lists[i - 1].clone(); lists[i] = vec![p[0], rng.cbyte(), p[2].wrapping_add(p[1]), p[3]]; }
+                            1 => { let p = lists[i - 1].clone(); lists[i] = p; }
+                            2 => { let p = lists[i - 1].clone(); lists[i] = vec![p[0], p[1], p[2].wrapping_add(1), p[3]]; }
+                            _ => {}
+                        }
+                    }
+                }
             }
             15 => nums = vec![dest, b(rng), rng.pick(&[0u32, 5, 6, 0x7E, 0x7F, 0xFF])],
             16 => {
@@ -112,7 +131,16 @@ pub fn gen_call(rng: &mut Rng, key: (bool, u32), refuse: bool, total: Option<usi
                 let tot = total.unwrap_or_else(|| 10 + hl + rng.below(if big { 240 } else { 30 }) as usize);
                 let (_, d) = split_body(rng, tot, Some(hl));
                 nums = vec![dest, fmt, data, (rng.next() >> 30) as u32 & 0xFFFF];
-                lists = vec![rng.bytes(d)];
+                lists = vec![rng.body(d)];
+                // a body that begins like this message's own framing: type byte, then the vendor ID as it is sent
+                if rng.chance(1, 5) {
+                    let by = data.to_be_bytes();
+                    let mut pre: Vec<u8> = vec![if fmt == 0 { 0x7E } else { 0x7F }];
+                    if fmt == 0 { pre.extend(&by[2..]); } else { pre.extend(&by); }
+                    if rng.chance(1, 3) { pre.remove(0); }
+                    let b = &mut lists[0];
+                    for (i, x) in pre.iter().enumerate() { if i < b.len() { b[i] = *x; } }
+                }
             }
             _ => {}
         }
